@@ -45,12 +45,20 @@ HeaderFor(pre) == IF pre = <<255, 254>> THEN Wide(HeaderText, TRUE)
 RECURSIVE ByteSeqs(_, _)
 ByteSeqs(S, n) == IF n = 0 THEN {<<>>} ELSE LET Q == ByteSeqs(S, n - 1) IN Q \cup {Append(q, b) : q \in Q, b \in S}
 
-PayloadBytes == {10, 13, 0, 97, 78, 195, 169, 255, 216}
+PayloadBytes == {10, 13, 0, 97, 78, 195, 169, 255, 216, 226, 130}
 FilesWithHeader(n) == {pre \o HeaderFor(pre) \o pl : pre \in Prefixes, pl \in ByteSeqs(PayloadBytes, n)}
 \* tiny files (BOM region only): every byte string up to length n over the BOM alphabet
 FilesTiny(n) == ByteSeqs({239, 187, 191, 255, 254, 10, 97}, n)
 
-Files == IF FileSet = "hdr" THEN FilesWithHeader(FileN) ELSE FilesTiny(FileN)
+\* UTF-16 payloads built from whole code units, chosen so that the bytes 0A / 00 meet inside and
+\* ACROSS unit boundaries (U+0100 U+0A05, U+0A00, U+050A, U+000A, 'a')
+Units == {<<1, 0>>, <<10, 5>>, <<0, 10>>, <<97, 0>>, <<0, 97>>, <<10, 0>>, <<5, 10>>}
+RECURSIVE UnitSeqs(_)
+UnitSeqs(n) == IF n = 0 THEN {<<>>} ELSE LET Q == UnitSeqs(n - 1) IN Q \cup {q \o u : q \in Q, u \in Units}
+FilesUnits(n) == {pre \o HeaderFor(pre) \o pl : pre \in {<<255, 254>>, <<254, 255>>}, pl \in UnitSeqs(n)}
+
+Files == IF FileSet = "hdr" THEN FilesWithHeader(FileN)
+         ELSE IF FileSet = "units" THEN FilesUnits(FileN) ELSE FilesTiny(FileN)
 Faults == IF FaultSet = "none" THEN {NoFault}
           ELSE {NoFault} \cup {[off |-> o, kind |-> k] : o \in 0..30, k \in {"Other", "UnexpectedEof"}}
 
@@ -161,7 +169,9 @@ ExtraByte ==
     /\ LET b == Pending[1]  c == Append(cur, b) IN
        /\ Take(1)
        /\ cur' = c
-       /\ pc' = IF ~UnitAware \/ (Len(c) % 2 = 0 /\ b = 0) THEN "emit" ELSE "line"
+       \* not a newline: keep reading - and if the extra byte is itself an LF it may be the low
+       \* byte of the real newline (U+0Axx followed by U+000A), so its own extra byte is next
+       /\ pc' = IF ~UnitAware \/ (Len(c) % 2 = 0 /\ b = 0) THEN "emit" ELSE IF b = 10 THEN "extra" ELSE "line"
     /\ UNCHANGED <<file, intr, fault, enc, lines, result, sched>>
 
 \* ... which is missing at the very end of the input
